@@ -11,6 +11,7 @@ import (
 	"net/http/httptest"
 	"os"
 	"regexp"
+	"runtime"
 	"sort"
 	"strconv"
 	"strings"
@@ -193,18 +194,64 @@ func (r *mxRunner) do(path string) *httptest.ResponseRecorder {
 	return w
 }
 
-// doMayBlock runs a request that may block inside the muxer; nil = still blocked after the watchdog.
-func (r *mxRunner) doMayBlock(path string, wait time.Duration) *httptest.ResponseRecorder {
+func curGoroutineID() uint64 {
+	var buf [64]byte
+	n := runtime.Stack(buf[:], false)
+	// "goroutine 123 [running]:"
+	f := strings.Fields(string(buf[:n]))
+	if len(f) < 2 {
+		return 0
+	}
+	id, _ := strconv.ParseUint(f[1], 10, 64)
+	return id
+}
+
+var mxWaitCh = make(chan uint64, 1024)
+
+func init() {
+	// the muxer's handlers call verifYield("muxer.wait") right before cond.Wait() (mutex held):
+	// from that point on the handler is parked until the next Broadcast.
+	gohlslib.VerifSetYieldHook(func(point string) {
+		if point == "muxer.wait" {
+			select {
+			case mxWaitCh <- curGoroutineID():
+			default:
+			}
+		}
+	})
+}
+
+// doMayBlock runs a request that may block inside the muxer; nil = the handler announced (through the
+// verif yield point) that it is about to park in cond.Wait. No wall-clock guess is involved.
+func (r *mxRunner) doMayBlock(path string, _ time.Duration) *httptest.ResponseRecorder {
+	for drained := false; !drained; { // stale announcements of earlier requests
+		select {
+		case <-mxWaitCh:
+		default:
+			drained = true
+		}
+	}
 	ch := make(chan *httptest.ResponseRecorder, 1)
+	idCh := make(chan uint64, 1)
 	go func() {
 		defer func() { recover() }() //nolint:errcheck
+		idCh <- curGoroutineID()
 		ch <- r.do(path)
 	}()
-	select {
-	case w := <-ch:
-		return w
-	case <-time.After(wait):
-		return nil
+	id := <-idCh
+	deadline := time.After(10 * time.Second)
+	for {
+		select {
+		case w := <-ch:
+			return w
+		case g := <-mxWaitCh:
+			if g == id {
+				return nil
+			}
+			// an earlier, still blocked request re-parking after a Broadcast: ignore
+		case <-deadline:
+			return nil
+		}
 	}
 }
 
@@ -285,6 +332,10 @@ func (r *mxRunner) begin() string {
 	}
 	r.m = m
 	r.started = true
+	r.segCount = m.SegmentCount // effective values after defaults
+	r.segMin = int64(m.SegmentMinDuration)
+	r.partMin = int64(m.PartMinDuration)
+	r.maxSize = m.SegmentMaxSize
 	r.orc = newMxOracle(r)
 	return "started"
 }
@@ -692,6 +743,9 @@ func (r *mxRunner) decodeTS(b []byte) (string, error) {
 			continue
 		}
 		i, ok := pidIdx[d.PID]
+		if !ok && d.PID >= 256 {
+			i, ok = int(d.PID-256), true // no PMT in this segment (only after a failed Write): mediacommon's default PIDs
+		}
 		if !ok || i >= len(sbs) {
 			return all(), fmt.Errorf("PES on PID %d before/without a PMT entry", d.PID)
 		}
